@@ -1,26 +1,42 @@
 """Which `self.<attr>` can carry information from an earlier `fit` into the next one (C16, static tie).
 
-For every concrete class of sknetwork/ that defines or inherits `fit`, an intra-class, inter-method flow analysis over
-`self.<attr>` (Python `ast`; `self.m(...)`, `super().m(...)`, `Base.m(self, ...)` are followed through the C3 MRO, each
-callee analysed in the calling context, memoised on (method, set of definitely written attributes)):
+For every concrete class of sknetwork/ that defines or inherits `fit` (concrete: the `fit` found through the C3 MRO is
+not just `raise NotImplementedError`), an intra-class, inter-method flow analysis over `self.<attr>` (Python `ast`;
+`self.m(...)`, `super().m(...)`, `super(K, self).m(...)`, `Base.m(self, ...)` are followed through the MRO, each callee
+analysed in the calling context and memoised on (method, set of definitely written attributes) - a fixed point):
 
-  config              attributes assigned anywhere in the `__init__` chain
-  reads_first         attributes that MAY be read (plain load, hasattr/getattr, augmented assignment, mutation through
-                      the attribute or through a local alias of it) at a point where they have not been DEFINITELY
-                      written earlier in the same call of `fit` (or of a `fit_*` wrapper)
+  config              attributes assigned anywhere in the `__init__` chain (helpers such as `_init_vars()` included)
+  reads_first         attributes that MAY be read during `fit` (plain load, hasattr/getattr, augmented assignment,
+                      mutation through the attribute or through a local alias of it) at a point where they have not
+                      been DEFINITELY written earlier in the same call
   definite write      `self.x = ...` on every path: straight-line code and both branches of an `if` (a branch that always
                       returns/raises does not count against the other); NOT the body of a loop, `try`, `with`, nested
-                      function, comprehension, lambda, nor the short-circuited operands of and/or/if-else; a write in a
-                      called method counts iff it is definite in that method (on all its return paths)
+                      function, comprehension, lambda, nor the short-circuited operands of and/or/if-else/chained
+                      comparisons; a write in a called method counts iff it is definite in that method (on all its
+                      return paths).  A definite `_init_vars()`-style reset is a definite write of what it assigns.
   stale_reads         reads_first - config
   config_overwritten  config attributes that fit assigns or mutates, with the flag "read before fit's own definite write"
-  stale_outputs       attributes assigned in a method reachable from fit / fit_* that are not definitely written at
-                      every normal exit of `fit` (a definite `_init_vars()`-style reset counts as a definite write)
+  stale_outputs       attributes assigned in a method reachable from fit or from a `fit_*` wrapper (the wrappers call fit
+                      and contribute assignments only) that are not definitely written at every normal exit of `fit`
 
 Mutation through an attribute (`self.x[i] = v`, `self.x.y = v`, `self.x.m(...)` with m not in PURE_METHODS, `x(...)`,
-the same through a local alias `v = self.x` / `for v in self.x`) is a read plus a non-definite write of x.
+the same through a local alias `v = self.x[...]` / `for v in self.x`) is a read plus a non-definite write of x.
 `self` handed to a foreign callable is reported as the pseudo attribute `<self escapes to f>`.
-Fails closed (TranslateError) on syntax it does not model and on a base class it cannot resolve.
+
+Three refinements, each reported in its own generated list (and pinned by the obligation in Props/C16.v):
+  accumulators   an attribute that NO method of the class (whole MRO) reads except to append to it (`self.x += e`): nothing
+                 flows out of it (the Log transcript); excluded from the derived all_* lists, listed in
+                 fit_state_accumulators.  Not granted when `self` escapes or is used reflectively (except the reviewed
+                 Algorithm.get_params / set_params, which touch constructor-parameter names only).
+  delegations    `self.x.fit*(...)` on the whole object held in x (or a direct alias `v = self.x`) refits a sub-estimator:
+                 not a mutation; reading `self.x.<attr>` BEFORE the definite delegation of the same call is a stale read
+                 of x.  Listed in fit_state_delegations.
+  entry assumption  ENTRY_ASSUME fixes an argument of `fit` (GNNClassifier: reinit=True, its documented refit-from-scratch
+                 mode; without it `fit` continues training by design).  Listed in fit_state_entry_assumptions.
+Fails closed (TranslateError) on syntax it does not model (decorators other than static/class/abstractmethod, nested
+classes, del self.x, reflective access with a non-constant name, yield, match, ...) and on a base class of an estimator
+that it cannot resolve inside sknetwork (other than ABC / object).  Classes without `fit` whose ancestry leaves sknetwork
+(LinearOperator subclasses, Dataset(dict)) are listed in fit_state_skipped_external and not analysed.
 """
 import ast
 import glob
